@@ -239,7 +239,8 @@ def _scatter(G, fixes, assign):
 
 
 def _mismatch(G, grids, cells):
-    """First (aggregate, row, col, got, expected, raw) that differs, or None."""
+    """First differing cell of every aggregate: {aggregate: (row, col, got, expected, raw)} (empty when all agree)."""
+    out = {}
     for name, _ in AGGS:
         g = grids.get(name)
         if g is None:
@@ -249,8 +250,8 @@ def _mismatch(G, grids, cells):
                 raw = cells.get((col, row), [])
                 exp = _expected(name, raw)
                 if not _close(g[row][col], exp):
-                    return (name, row, col, g[row][col], exp, raw)
-    return None
+                    out.setdefault(name, (row, col, g[row][col], exp, raw))
+    return out
 
 
 def _read_grid(r, name, G):
@@ -393,21 +394,30 @@ def check_summ(variant, tracks, res, margin, ctx):
                           {"sum_of_counts": tot, "observations_with_a_value": n_obs, "count_grid": grids["count"]})
             return nontrivial
     bad = _mismatch(G, grids, cells)
-    if bad is not None and any(len(c) > 1 for c in cand):
+    if bad and any(len(c) > 1 for c in cand):
         # an observation on a border may sit in any cell whose closed footprint contains it
         n_alt = 1
         for c in cand:
             n_alt *= len(c)
-        if n_alt <= 4096:
+        seen_counts = None                 # the count grid, when there is one, prunes the search: {cell: count > 0}
+        if "count" in grids:
+            seen_counts = {(c, r): v for r, row in enumerate(grids["count"]) for c, v in enumerate(row) if v != 0}
+        if n_alt <= (4096 if seen_counts is not None else 256):
             for alt in itertools.product(*cand):
-                if _mismatch(G, grids, _scatter(G, fixes, alt)) is None:
+                alt_cells = _scatter(G, fixes, alt)
+                if seen_counts is not None:
+                    mine = {k: n for k, n in ((k, sum(1 for v in raw if v == v)) for k, raw in alt_cells.items()) if n}
+                    if mine != seen_counts:
+                        continue
+                if not _mismatch(G, grids, alt_cells):
                     ctx.count("border_assignment_other_than_getCell_accepted")
-                    bad = None
+                    bad = {}
                     break
-    if bad is not None:
-        name, row, c, got, exp, raw = bad
+    for name in sorted(bad):
+        row, c, got, exp, raw = bad[name]
         ctx.violation("summarize/%s/%s/wrong-value" % (name, _cell_class(raw)), case,
                       {"aggregate": name, "row": row, "col": c, "got": got, "expected": exp, "cell_values": raw, "grid": G})
+    if bad:
         return nontrivial
     ctx.outcome(("summ", G["ncol"], G["nrow"], len(cells), tuple(sorted({_cell_class(v) for v in cells.values()}))))
     return nontrivial
@@ -511,7 +521,7 @@ def plan(tier, variant):
             for mi in range(len(MARGINS)):
                 for lo in range(0, n, chunk):
                     shards.append({"kind": "summ", "fam": fam, "ri": ri, "mi": mi, "lo": lo, "hi": min(n, lo + chunk),
-                                   "variant": variant})
+                                   "tier": tier, "variant": variant})
     return shards
 
 
@@ -526,7 +536,7 @@ def run_shard(shard, ctx):
         ctx.sample({"getCell_on_grid": {"res": list(res), "margins": MARGINS}, "points": "quarter lattice 17x17 + 8 extent border points"})
         return
     res, margin = RES[shard["ri"]], MARGINS[shard["mi"]]
-    fam = _family(shard["fam"], ctx.tier if ctx.tier in ("quick", "thorough") else "quick", v)
+    fam = _family(shard["fam"], shard["tier"], v)
     first = True
     for tracks in fam[shard["lo"]:shard["hi"]]:
         full = [[tuple(f) for f in DIAG]] + tracks
